@@ -7,7 +7,7 @@ from typing import TypeVar
 from geneticengine.exceptions import GeneticEngineError
 
 from geneticengine.grammar.grammar import Grammar
-from geneticengine.random.sources import RandomSource
+from geneticengine.random.sources import RandomSource, clamp_float
 from geneticengine.representations.api import (
     RepresentationWithCrossover,
     RepresentationWithMutation,
@@ -115,8 +115,8 @@ class GenotypeBackedSource(RandomSource):
         # (a gene rewritten by mutate() may be as large as sys.maxsize: reduce it to the range genes are created in)
         v = self.decider.read(float) % (MAX_GENE_VALUE + 1)
         r = (v / MAX_GENE_VALUE) * (max - min) + min
-        # (min + (max - min) can round above max)
-        return max if r > max else r
+        # (rounding, or integer bounds without an exact float form, can leave the range by one ulp)
+        return clamp_float(r, min, max)
 
 
 class DynamicStructuredGrammaticalEvolutionRepresentation(
